@@ -201,6 +201,16 @@ class Parser:
                     self.next()
             self.next()
             return ("tuple", items)
+        if tok[1] == "[" and tok[0] == "p":
+            items = []
+            while not self.at("]"):
+                items.append(self.expr())
+                if self.at(";"):
+                    raise Unsupported("array repeat expression")
+                if self.at(","):
+                    self.next()
+            self.next()
+            return ("tuple", items)
         if tok[1] == "(" and tok[0] == "p":
             items = []
             trailing = False
@@ -592,4 +602,67 @@ def random_refutation(goal, hyps, solve_order, seed, prime=2_147_483_629, tries=
         g = int(sp.expand(goal).subs(val)) % prime
         if g != 0:
             return {str(k): v for k, v in val.items()}, g
+    return None, None
+
+
+def find_refutation(goal, hyps, seed, tries=30):
+    """Search (over Q, exact) for an assignment where every hypothesis vanishes and the goal does not.
+    Hypotheses are satisfied constructively: univariate ones by one of their rational roots, the others
+    by solving for a symbol that occurs linearly after the remaining symbols got random small values."""
+    import random
+    rnd = random.Random(seed)
+    goal = sp.expand(goal)
+    hyps = [sp.expand(h) for h in hyps if sp.expand(h) != 0]
+    for _ in range(tries):
+        val = {}
+        rem = list(hyps)
+        ok = True
+        guard = 0
+        while rem and ok and guard < 200:
+            guard += 1
+            progress = False
+            for h in list(rem):
+                hs = sp.expand(h.subs(val))
+                if hs == 0:
+                    rem.remove(h)
+                    progress = True
+                    continue
+                fs = sorted(hs.free_symbols, key=lambda x: x.name)
+                if not fs:
+                    ok = False
+                    break
+                if len(fs) == 1:
+                    rts = [r for r in sp.roots(sp.Poly(hs, fs[0])).keys() if r.is_rational]
+                    if not rts:
+                        ok = False
+                        break
+                    val[fs[0]] = rnd.choice(rts)
+                    rem.remove(h)
+                    progress = True
+            if not ok or not rem:
+                break
+            if not progress:
+                # assign random values to all but one linear symbol of some hypothesis
+                h = rem[0]
+                hs = sp.expand(h.subs(val))
+                fs = sorted(hs.free_symbols, key=lambda x: x.name)
+                lin = [x for x in fs if sp.degree(hs, x) == 1]
+                if not lin:
+                    x = rnd.choice(fs)
+                    val[x] = sp.Integer(rnd.randint(-9, 9))
+                    continue
+                keep = rnd.choice(lin)
+                for x in fs:
+                    if x != keep:
+                        val[x] = sp.Integer(rnd.randint(1, 40))
+        if not ok or rem:
+            continue
+        for x in goal.free_symbols:
+            if x not in val:
+                val[x] = sp.Integer(rnd.randint(1, 40))
+        if any(sp.expand(h.subs(val)) != 0 for h in hyps):
+            continue
+        g = sp.expand(goal.subs(val))
+        if g != 0:
+            return {str(k): str(v) for k, v in val.items()}, str(g)
     return None, None
